@@ -19,7 +19,7 @@ PROPERTY = 'C05'
 RULE = ('Dense-time past fragment (once/historically/since bounded and unbounded, Boolean, arithmetic, predicates) and a pastified lane '
         '(bounded eventually/always, pastify() first) on grid signals of up to 6 samples per variable; a schedule cuts the input into '
         'successive update() calls: all at once, one sample per update, random common cut instants, and per-variable independent cuts '
-        '(one operand runs ahead); lanes for unbounded operators under arbitrary schedules, bounded / pastified operators in one update and in several updates; for one-variable cases with <= 5 samples ALL 2^(n-1) schedules are enumerated for a fixed family of 12 formulas; lane skewed: 34-70 samples per variable, one variable delivered completely (or in one update) before the others, so that two-operand nodes keep a long backlog; in the per-variable schedules a variable without new samples is either listed with an empty list or (after its first mention) left out of the call. lane far_twins: two bounded past operators over one operand with bounds of 10^6..10^8 time units that differ in the seventh or a later digit, compared with the dense-time offline monitor of rtamt itself (the grid reference would need 10^7 cells). Oracle: (i) every '
+        '(one operand runs ahead); lanes for unbounded operators under arbitrary schedules, bounded / pastified operators in one update and in several updates; for one-variable cases with <= 5 samples ALL 2^(n-1) schedules are enumerated for a fixed family of 12 formulas; lane skewed: 34-70 samples per variable, one variable delivered completely (or in one update) before the others, so that two-operand nodes keep a long backlog; in the per-variable schedules a variable without new samples is either listed with an empty list or (after its first mention) left out of the call. lane far_twins: two bounded past operators over one operand with bounds of 10^6..10^8 time units that differ in the seventh or a later digit, compared with the dense-time offline monitor of rtamt itself (the grid reference would need 10^7 cells). in one case in four the caller passes the same list object per variable in every call and refills it in place. Oracle: (i) every '
         'returned element is a [time, value] pair with finite time and the concatenation has non-decreasing time stamps; (ii) read as a '
         'step function it equals the grid reference R-ct (shifted by the horizon after pastify) at every cell start / midpoint it '
         'covers; (iii) two schedules of the same case agree wherever both cover. Non-trivial = >= 2 update calls, non-empty output and '
@@ -66,17 +66,25 @@ def split_independent(sig_t, masks):
     return out
 
 
-def run_schedule(text, feed, batches, pastify, omit_empty=False):
+def run_schedule(text, feed, batches, pastify, omit_empty=False, refill=False):
     try:
         spec = build('ct_on', text, feed, pastify=pastify)
         outs = []
         listed = set()
+        own = {v: [] for v in feed}          # refill: the caller keeps one list per variable and refills it in place for every call
         for b in batches:
             # a variable without new samples is either listed with an empty list or - once it has been listed in an
             # earlier call - left out of the call (before its first mention the monitor holds no sample list for it)
-            args = [[v, [list(s) for s in b[v]]] for v in feed if b[v] or not omit_empty or v not in listed]
+            if refill:
+                for v in feed:
+                    own[v][:] = [list(s) for s in b[v]]
+                args = [[v, own[v]] for v in feed if b[v] or not omit_empty or v not in listed]
+            else:
+                args = [[v, [list(s) for s in b[v]]] for v in feed if b[v] or not omit_empty or v not in listed]
             listed.update(a[0] for a in args)
-            outs.append(spec.update(*args))
+            out = spec.update(*args)
+            # copied at once: the monitor may hand back the caller's own list object (out = x), which a refilling caller reuses
+            outs.append([list(p) if isinstance(p, (list, tuple)) else p for p in out] if isinstance(out, list) else out)
         return ('ok', outs)
     except RecursionError:
         raise
@@ -139,6 +147,8 @@ def cases(draw, tier, pastified=False, bounded=True, chunked=True):
     else:
         c['masks'] = {v: draw(st.lists(st.integers(0, 1), min_size=nmax, max_size=nmax)) for v in c['vars']}
         c['omit_empty'] = draw(st.booleans())
+    # the caller passes the same list object per variable in every call and refills it in place (a receive buffer)
+    c['refill'] = draw(st.integers(0, 3)) == 0
     return c
 
 
@@ -187,7 +197,10 @@ def check(case):
     omit = bool(case.get('omit_empty'))
     if omit:
         labels.append('variables-without-samples-left-out')
-    o = run_schedule(text, feed, batches, pastified, omit)
+    refill = bool(case.get('refill'))
+    if refill:
+        labels.append('caller-refills-its-lists')
+    o = run_schedule(text, feed, batches, pastified, omit, refill)
     o1 = run_schedule(text, feed, whole, pastified)
     desc = 'spec: %s%s\nsignals: %s\nschedule (%s%s): %s' % (text, '  [pastified, horizon %s]' % float(h * q) if pastified else '', sig_t,
                                                            case.get('schedule'), ', a variable without new samples is left out of the call' if omit else '', batches)
@@ -331,6 +344,7 @@ def long_cases(tier):
             nmax = max(len(s) for s in c['signals'].values())
             c['masks'] = {v: draw(st2.lists(st2.integers(0, 1), min_size=nmax, max_size=nmax)) for v in c['vars']}
             c['omit_empty'] = draw(st2.booleans())
+        c['refill'] = draw(st2.integers(0, 2)) == 0
         return c
     return mk()
 
@@ -375,6 +389,7 @@ def skewed_cases(tier):
             ahead = draw(st2.sampled_from(vs))
             c['masks'] = {v: ([0] * 70 if v == ahead else draw(st2.lists(st2.sampled_from([0, 0, 0, 0, 0, 1]), min_size=70, max_size=70))) for v in vs}
         c['omit_empty'] = draw(st2.booleans())
+        c['refill'] = draw(st2.booleans())
         return c
     return mk()
 
